@@ -881,6 +881,29 @@ def fn_parts(toks):
             'body_end': match_close(toks, body), 'gen_start': fn_kw + 2, 'gen_end': lp}
 
 
+def rename_metavars(toks, log):
+    """R18: inside an extracted macro_rules body (or a function-local macro), every metavariable `$name` is
+    alpha-renamed to the identifier `m_name`, so that slices of the body can bind it as an ordinary parameter."""
+    out = []
+    i = 0
+    n = 0
+    while i < len(toks):
+        t = toks[i]
+        if t.text == '$' and i + 1 < len(toks) and toks[i + 1].kind == 'ident' and toks[i + 1].ws == '':
+            nt = toks[i + 1].copy()
+            nt.text = 'm_' + nt.text
+            nt.ws = t.ws
+            out.append(nt)
+            n += 1
+            i += 2
+            continue
+        out.append(t)
+        i += 1
+    if n:
+        log.append(('R18', toks[0].file, toks[0].line, '%d macro metavariable occurrence(s) `$x` renamed to `m_x`' % n))
+    return out
+
+
 def rename_param(toks, index, want, log):
     """R17: alpha-renaming of the index-th parameter (1-based, `self` not counted) of a fn item to `want`.
     Contracts name parameters; a parameter renamed in the source (e.g. to `_x`) must not lose the contract."""
